@@ -1592,6 +1592,14 @@ class Fn:
             if not self.fs.allow_async:
                 raise Unsupported(f"{self.fs.qual}: await")
             if not isinstance(node.value, ast.Call):
+                # awaiting an object (a future held in a name or attribute): the module's hook says what that means
+                if tr.spec.ext_expr is not None:
+                    syn = ast.Call(func=ast.Name(id="__await__", ctx=ast.Load()), args=[node.value], keywords=[])
+                    ast.copy_location(syn, node)
+                    ast.fix_missing_locations(syn)
+                    r = tr.spec.ext_expr(self, syn, env, L)
+                    if r is not None:
+                        return r
                 raise Unsupported(f"{self.fs.qual}: await of something that is not a call: {ast.unparse(node)[:60]}")
             self.awaiting = True
             try:
@@ -2396,6 +2404,27 @@ inductive GEv
   | transportSendReset                    -- self._transport.send_reset()
 deriving Repr, DecidableEq
 
+/-- what reaches the gateway from below while one of its coroutines is suspended -/
+inductive GIn
+  | rstack (code : Nat)                   -- reset_received(code)
+  | error (code : Nat)                    -- error_received(code)
+  | lost (exc : Option ExcVal)            -- connection_lost(exc)
+  | eof                                   -- eof_received()
+  | data (d : List UInt8)                 -- data_received(d)
+deriving Repr, DecidableEq
+
+/-- how a wait that nothing from below ends is ended -/
+inductive GEnd
+  | deadline
+  | cancelled
+deriving Repr, DecidableEq
+
+/-- one suspension: what arrives, grouped by loop iteration (the done-callbacks of a future run between iterations), then the end -/
+structure GWait where
+  rounds : List (List GIn) := []
+  fin : GEnd := .deadline
+deriving Repr, DecidableEq
+
 /-- the fields of `Gateway`; futures live in a heap because waiters hold them by reference -/
 structure Gateway where
   reset_future : Option Nat := none
@@ -2406,6 +2435,10 @@ structure Gateway where
   transport : Option Unit := some ()
   futs : List GFut := []
   trace : List GEv := []
+  /-- futures that have `_reset_cleanup` attached as a done-callback and have not completed yet -/
+  cleanups : List Nat := []
+  /-- what happens at each await of the translated coroutines, in order (BV/Py/UartEnv.lean) -/
+  script : List GWait := []
 deriving Repr, DecidableEq
 
 def gemit (e : GEv) : PyM Gateway Unit := PyM.modify fun s => { s with trace := s.trace ++ [e] }
@@ -3221,8 +3254,73 @@ def command_spec() -> ModSpec:
     )
 
 
+def uart_reset_spec() -> ModSpec:
+    """Gateway.reset / Gateway.wait_for_startup_reset: coroutines over the synchronous handlers generated by uart_spec; what reaches
+    the gateway while they are suspended goes through those generated handlers (BV/Py/UartEnv.lean)"""
+    base = uart_spec()
+    FUT = ("ref", "GFut")
+
+    def ext(fn, node, env, L):
+        if not isinstance(node, ast.Call):
+            return None
+        src = ast.unparse(node)
+        if src in ("asyncio.get_running_loop().create_future()", "asyncio.get_event_loop().create_future()"):
+            tmp = fn.tr.fresh("f")
+            L.append(f"let {tmp} ← gNewFut")
+            return tmp, FUT
+        if src == "self._reset_future.add_done_callback(self._reset_cleanup)":
+            tmp = fn.tr.fresh("s")
+            L.append(f"let {tmp} ← PyM.get")
+            L.append(f"gArmCleanup {tmp}.reset_future")
+            return "()", UNIT
+        f = ast.unparse(node.func)
+        if f in ("__await__", "__await_timeout__"):
+            a, at = fn.ex(node.args[0], env, L)
+            if at != opt(FUT):
+                raise Unsupported(f"await of {at}")
+            if f == "__await__":
+                t_ = "none"
+            else:
+                b, bt = fn.ex(node.args[1], env, L)
+                if bt != NAT:
+                    raise Unsupported(f"timeout of type {bt}")
+                t_ = f"(some {paren(b)})"
+            tmp = fn.tr.fresh("v")
+            L.append(f"let {tmp} ← gAwait {paren(a)} {t_}")
+            return tmp, BOOL
+        return None
+
+    def with_hook(fn, s, env, L):
+        if not isinstance(s, ast.AsyncWith) or len(s.items) != 1 or s.items[0].optional_vars is not None or not isinstance(s.items[0].context_expr, ast.Call):
+            return None
+        c = s.items[0].context_expr
+        if ast.unparse(c.func) == "asyncio_timeout" and len(c.args) == 1 and not c.keywords and len(s.body) == 1 and isinstance(s.body[0], ast.Return) \
+                and isinstance(s.body[0].value, ast.Await) and not isinstance(s.body[0].value.value, ast.Call):
+            call = ast.Call(func=ast.Name(id="__await_timeout__", ctx=ast.Load()), args=[s.body[0].value.value, c.args[0]], keywords=[])
+            new_ = ast.Return(value=call)
+            ast.copy_location(new_, s)
+            ast.fix_missing_locations(new_)
+            return ("rewrite", [new_])
+        return None
+
+    return ModSpec(
+        module="bellows.uart",
+        ns="BV.Src.UartReset",
+        imports=["BV.Py.UartEnv"],
+        opens=["BV.Py", "BV.Src.Uart"],
+        unions={},
+        fns=[FnSpec("Gateway.wait_for_startup_reset", ret=UNIT, allow_async=True),
+             FnSpec("Gateway.reset", ret=BOOL, allow_async=True)],
+        state=base.state,
+        exc_ctor=base.exc_ctor,
+        value_methods=base.value_methods,
+        ext_expr=ext,
+        with_hook=with_hook,
+    )
+
+
 MODULES = {"Ash": ash_spec, "Uart": uart_spec, "Mcast": multicast_spec, "Wd": watchdog_spec,
-           "HdrV4": hdr_v4_spec, "HdrV5": hdr_v5_spec, "HdrV8": hdr_v8_spec, "Proto": protocol_spec, "Cmd": command_spec}
+           "HdrV4": hdr_v4_spec, "HdrV5": hdr_v5_spec, "HdrV8": hdr_v8_spec, "Proto": protocol_spec, "Cmd": command_spec, "UartReset": uart_reset_spec}
 
 
 def translate_module(spec: ModSpec):
